@@ -14,6 +14,15 @@ func runC10(name, tier string, deadline time.Duration) *hist.Result {
 	if strings.HasPrefix(name, "prim/") {
 		return nodex.RunPrim(name, tier, deadline)
 	}
+	if !strings.HasPrefix(name, "node/") {
+		u, err := hist.FindUniverse("C10", tier, name)
+		if err != nil {
+			return &hist.Result{Universe: name, Property: "C10", HarnessErr: err.Error()}
+		}
+		cfg := hist.ConfigFor("C10", tier)
+		cfg.Deadline = deadline
+		return hist.Explore(u, hist.MonitorFor("C10"), cfg)
+	}
 	sp, ok := nodex.FindSpec(name)
 	if !ok {
 		return &hist.Result{Universe: name, Property: "C10", HarnessErr: "no such node closure " + name}
@@ -29,6 +38,24 @@ func replayC10(v *hist.Violation) {
 			os.Exit(0)
 		}
 		fmt.Printf("REPRODUCED C10: %s\n  expected: %s\n  observed: %s\n", r.Violations[0].What, r.Violations[0].Expected, r.Violations[0].Observed)
+		os.Exit(1)
+	}
+	if !strings.HasPrefix(v.Universe, "node/") {
+		u, err := hist.FindUniverse("C10", v.Tier, v.Universe)
+		if err != nil {
+			fmt.Fprintln(os.Stderr, err)
+			os.Exit(2)
+		}
+		v2, _, _, err := hist.EvalPath(u, hist.MonitorFor("C10"), v.Path, v.Fill, nil)
+		if err != nil {
+			fmt.Fprintln(os.Stderr, "replay error:", err)
+			os.Exit(2)
+		}
+		if v2 == nil {
+			fmt.Println("NOT REPRODUCED: the property holds on this history now")
+			os.Exit(0)
+		}
+		fmt.Printf("REPRODUCED C10: %s\n  expected: %s\n  observed: %s\n", v2.What, v2.Expected, v2.Observed)
 		os.Exit(1)
 	}
 	sp, ok := nodex.FindSpec(v.Universe)
@@ -54,6 +81,9 @@ func init() {
 			var out []JobDef
 			for _, s := range nodex.Specs(tier) {
 				out = append(out, JobDef{Name: "node/" + s.Name, Args: []string{"job", "-prop", "C10", "-tier", tier, "-universe", "node/" + s.Name}})
+			}
+			for _, d := range hist.Registry("C10", tier) {
+				out = append(out, JobDef{Name: d.Name, Args: []string{"job", "-prop", "C10", "-tier", tier, "-universe", d.Name}})
 			}
 			for _, p := range nodex.PrimJobs(tier) {
 				out = append(out, JobDef{Name: p, Args: []string{"job", "-prop", "C10", "-tier", tier, "-universe", p}})
